@@ -1054,6 +1054,18 @@ func (p *PubSub) processLoop(ctx context.Context) {
 					in.s.Conn().RemotePeer(), in.s.Protocol())
 			}
 		case msg := <-p.sendMsg:
+			// the forwarder or the author may have been blacklisted while the message
+			// was sitting in the validation pipeline
+			if p.blacklist.Contains(msg.ReceivedFrom) {
+				p.logger.Debug("dropping validated message from blacklisted peer", "peer", msg.ReceivedFrom)
+				p.tracer.RejectMessage(msg, RejectBlacklstedPeer)
+				continue
+			}
+			if p.blacklist.Contains(msg.GetFrom()) {
+				p.logger.Debug("dropping validated message from blacklisted source", "source", msg.GetFrom())
+				p.tracer.RejectMessage(msg, RejectBlacklistedSource)
+				continue
+			}
 			p.publishMessage(msg)
 
 		case batchAndOpts := <-p.sendMessageBatch:
